@@ -66,6 +66,10 @@ Proof.
   apply in_seq. lia.
 Qed.
 
+Definition forall_bool (p : bool -> bool) : bool := p true && p false.
+Lemma forall_bool_spec p : forall_bool p = true -> forall b, p b = true.
+Proof. unfold forall_bool. intros H b. apply andb_prop in H as [H1 H2]. destruct b; assumption. Qed.
+
 (* lists of booleans as numbers, least significant first *)
 Fixpoint bools_of (k : nat) (n : N) : list bool :=
   match k with O => [] | S k' => N.odd n :: bools_of k' (N.div2 n) end.
